@@ -318,6 +318,9 @@ fn memory_store_sequences(rep: &mut Report, args: &Args) {
         let uv = crate::collab::RecUv::new(log.clone(), crate::collab::UvOutcome::Check { presence: true, verification: true }, Some(true));
         let cfg = crate::util::AuthCfg { counters: rng.bool(), id_len: Some(*rng.pick(&[16u8, 32, 64])), ..Default::default() };
         let wrapped = rng.bool();
+        // a third of the sequences go through one of the library's lock wrappers around the reference
+        // store instead (for which saving and updating are different things)
+        let around_reference = rng.below(3) == 0;
         let steps = rng.range(2, 5);
         let rps = ["example.com", "example.org"];
         let users: [&[u8]; 3] = [b"alice", b"bob", b"\x00"];
@@ -330,7 +333,7 @@ fn memory_store_sequences(rep: &mut Report, args: &Args) {
                     let rp = *rng.pick(&rps);
                     let user = *rng.pick(&users);
                     let rk = *rng.pick(&[None, Some(ResidentKeyRequirement::Discouraged), Some(ResidentKeyRequirement::Preferred), Some(ResidentKeyRequirement::Required)]);
-                    let case = json!({"index": index, "part": "memory-store-sequence", "store": if wrapped {"Arc<Mutex<MemoryStore>>"} else {"MemoryStore"}, "step": step, "rp": rp, "user_id": hex_short(user), "residentKey": rk.map(|r| format!("{r:?}")), "held_before": held.len()});
+                    let case = json!({"index": index, "part": "memory-store-sequence", "store": if around_reference {"a lock wrapper around the reference store"} else if wrapped {"Arc<Mutex<MemoryStore>>"} else {"MemoryStore"}, "step": step, "rp": rp, "user_id": hex_short(user), "residentKey": rk.map(|r| format!("{r:?}")), "held_before": held.len()});
                     let mut opts = crate::util::creation_options(Some(rp), user, "n", &rng.bytes(16), vec![crate::util::pk_param(coset::iana::Algorithm::ES256)]);
                     opts.public_key.authenticator_selection = Some(AuthenticatorSelectionCriteria { authenticator_attachment: None, resident_key: rk, require_resident_key: rng.chance(1, 4), user_verification: UserVerificationRequirement::Preferred });
                     let origin = crate::util::url(&format!("https://{rp}"));
@@ -355,12 +358,69 @@ fn memory_store_sequences(rep: &mut Report, args: &Args) {
                 }
             }};
         }
-        if wrapped {
+        if around_reference {
+            let rec = crate::collab::RecStore::new(log.clone(), crate::collab::Disc::Full);
+            let h = rec.clone();
+            let ids = move || -> Vec<Vec<u8>> { h.passkeys().iter().map(|p| p.credential_id.to_vec()).collect() };
+            match rng.below(4) {
+                0 => drive!(std::sync::Arc::new(tokio::sync::Mutex::new(rec)), |_c: &Client<std::sync::Arc<tokio::sync::Mutex<crate::collab::RecStore>>, crate::collab::RecUv, crate::collab::RecTld>| ids()),
+                1 => drive!(std::sync::Arc::new(tokio::sync::RwLock::new(rec)), |_c: &Client<std::sync::Arc<tokio::sync::RwLock<crate::collab::RecStore>>, crate::collab::RecUv, crate::collab::RecTld>| ids()),
+                2 => drive!(tokio::sync::Mutex::new(rec), |_c: &Client<tokio::sync::Mutex<crate::collab::RecStore>, crate::collab::RecUv, crate::collab::RecTld>| ids()),
+                _ => drive!(tokio::sync::RwLock::new(rec), |_c: &Client<tokio::sync::RwLock<crate::collab::RecStore>, crate::collab::RecUv, crate::collab::RecTld>| ids()),
+            }
+        } else if wrapped {
             drive!(std::sync::Arc::new(tokio::sync::Mutex::new(MemoryStore::new())), |c: &Client<std::sync::Arc<tokio::sync::Mutex<MemoryStore>>, crate::collab::RecUv, crate::collab::RecTld>| c.authenticator().store().try_lock().map(|g| g.keys().cloned().collect::<Vec<_>>()).unwrap_or_default());
         } else {
             drive!(MemoryStore::new(), |c: &Client<MemoryStore, crate::collab::RecUv, crate::collab::RecTld>| c.authenticator().store().keys().cloned().collect::<Vec<_>>());
         }
     }
+}
+
+/// The id-length value an application obtains from `CredentialIdLength::randomized` (with whatever
+/// random source it has) is a length the authenticator then honours: 16..=64, and the registered id
+/// has exactly that length.
+fn randomized_id_lengths(rep: &mut Report, args: &Args) {
+    use passkey_authenticator::CredentialIdLength;
+    use rand::rngs::mock::StepRng;
+    if replay_index(args).is_some() {
+        return;
+    }
+    let mut rng = Rng::derive(args.seed, "c02rand", 0);
+    let mut sources: Vec<(u64, u64)> = vec![(0, 0), (u64::MAX, 0), (1, 0), (u64::MAX / 2, 0), (0, 1), (0, u64::MAX / 49), (u64::MAX - 3, 1)];
+    for _ in 0..args.size(60, 600) {
+        sources.push((rng.next_u64(), rng.next_u64()));
+    }
+    let mut seen = std::collections::BTreeSet::new();
+    for (k, (start, step)) in sources.into_iter().enumerate() {
+        rep.eval();
+        let case = json!({"index": 35_000_000u64 + k as u64, "part": "CredentialIdLength::randomized", "random_source": {"first_value": start, "increment": step}});
+        let len = match catch(|| usize::from(CredentialIdLength::randomized(&mut StepRng::new(start, step)))) {
+            Ok(l) => l,
+            Err((sig, d)) => {
+                rep.violate(&format!("CredentialIdLength::randomized {sig}"), d, case);
+                continue;
+            }
+        };
+        seen.insert(len);
+        rep.nontrivial(fnv_str(&format!("randlen|{len}")));
+        if !(16..=64).contains(&len) {
+            rep.violate("CredentialIdLength::randomized yields a length outside 16..=64", format!("{len}"), case.clone());
+        }
+        // and a registration under it has an id of exactly that length
+        if k % 8 == 0 {
+            let rig = crate::util::Rig::ok(crate::collab::Disc::Full);
+            let mut auth = rig.auth(Default::default());
+            auth.set_make_credential_id_length(CredentialIdLength::randomized(&mut StepRng::new(start, step)));
+            if let Ok(Ok(resp)) = catch(|| crate::exec::block_on(auth.make_credential(crate::util::mc_request("example.com", b"u", &[1u8; 32], vec![crate::util::pk_param(coset::iana::Algorithm::ES256)], None, None, false, true, true)))) {
+                let got = authdata::decode(&resp.auth_data.to_vec()).ok().and_then(|d| d.attested.map(|a| a.cred_id.len()));
+                rep.count("randomized_length_registrations");
+                if got != Some(len) {
+                    rep.violate("credential id length is not the configured (randomized) length", format!("got {got:?} want {len}"), case);
+                }
+            }
+        }
+    }
+    rep.obs("randomized_lengths_seen", json!(seen.into_iter().collect::<Vec<_>>()));
 }
 
 pub fn run(args: &Args) -> Report {
@@ -386,6 +446,7 @@ pub fn run(args: &Args) -> Report {
     if replay_index(args).map_or(true, |o| (30_000_000..40_000_000).contains(&o)) {
         memory_store_sequences(&mut rep, args);
     }
+    randomized_id_lengths(&mut rep, args);
     if replay_index(args).is_none() && (rep.get("register_ok") == 0 || rep.get("make_ok") == 0 || rep.get("unsupported_list_failed") == 0) {
         rep.inconclusive("no successful client registration / CTAP registration / unsupported-list failure observed".into());
     }
